@@ -1446,6 +1446,53 @@ class BeartypeConf(object):
         )
 
 
+    def __copy__(self) -> 'BeartypeConf':
+        '''
+        **Shallow copy** of this configuration, which is this configuration
+        itself.
+
+        Configurations are immutable singletons memoized by the :meth:`__new__`
+        method. The default copy protocol would instead call :meth:`__new__`
+        with *no* parameters, obtain the memoized **default** configuration, and
+        then overwrite every slot of that shared default configuration with the
+        slots of this configuration -- silently reconfiguring every subsequent
+        use of the default configuration throughout the active process.
+        '''
+
+        return self
+
+
+    def __deepcopy__(self, memo: dict) -> 'BeartypeConf':
+        '''
+        **Deep copy** of this configuration, which is this configuration itself.
+
+        See Also
+        --------
+        :meth:`__copy__`
+            Further details.
+        '''
+
+        return self
+
+
+    def __reduce__(self) -> tuple:
+        '''
+        **Pickle protocol** reducing this configuration to a call to the
+        :meth:`__new__` method passed the same parameters this configuration was
+        originally instantiated with, preserving memoization on unpickling.
+
+        See Also
+        --------
+        :meth:`__copy__`
+            Further details.
+        '''
+
+        return (
+            _make_conf_from_kwargs,
+            (dict(zip(self._conf_kwargs, self._conf_args)),),
+        )
+
+
     def __hash__(self) -> int:
         '''
         **Hash** (i.e., non-negative integer quasi-uniquely identifying this
@@ -1516,6 +1563,19 @@ class BeartypeConf(object):
 
         # Return the machine-readable representation of this configuration.
         return self._repr
+
+# ....................{ PRIVATE ~ factories                }....................
+def _make_conf_from_kwargs(conf_kwargs: DictStrToAny) -> BeartypeConf:
+    '''
+    Beartype configuration instantiated with the passed keyword parameters.
+
+    This factory is the callable returned by the
+    :meth:`BeartypeConf.__reduce__` method. Since the :mod:`pickle` protocol
+    only supports positional parameters, this factory exists merely to unpack
+    the passed dictionary into keyword parameters.
+    '''
+
+    return BeartypeConf(**conf_kwargs)
 
 # ....................{ PRIVATE ~ globals                  }....................
 _beartype_conf_lock = Lock()
